@@ -20,11 +20,19 @@ for d in seeded/${1:-*}/; do
   (cd $WT && go build ./... && flock /tmp/suite.lock go test -vet=off -count=1 ./... 2>&1) >/tmp/sm_$id.base 2>&1 # the suite binds a fixed port: one at a time
   okc=$(grep -c "^ok" /tmp/sm_$id.base); failc=$(grep -c "^FAIL\|^--- FAIL\|panic:" /tmp/sm_$id.base)
   note=""
-  # the baseline's TestSystemTransportDontBlockOnClose is known to hang until the 10-minute deadline on a loaded
-  # machine (also on the unchanged tree): if that is the only failure, the transport package is run once more alone
-  if [ $okc -eq 10 ] && grep -q "panic: test timed out" /tmp/sm_$id.base && ! grep "^FAIL" /tmp/sm_$id.base | grep -v "scrapligo/transport\|^FAIL$" | grep -q .; then
-    (cd $WT && flock /tmp/suite.lock go test -vet=off -count=1 ./transport/ 2>&1) >/tmp/sm_$id.base2 2>&1
-    if grep -q "^ok" /tmp/sm_$id.base2 && ! grep -q "^FAIL\|^--- FAIL\|panic:" /tmp/sm_$id.base2; then okc=11; failc=0; note=" (transport package re-run alone after the known 10-minute hang)"; fi
+  # some baseline tests are timing-sensitive on a loaded machine also on the unchanged tree (TestSystemTransportDontBlockOnClose
+  # hangs until the 10-minute deadline, TestOpen/server-capabilities-truncated times out): packages that failed are run once
+  # more, one at a time; a change that really breaks a test fails again
+  if [ $failc -gt 0 ]; then
+    pk=$(grep "^FAIL[[:space:]]*github.com" /tmp/sm_$id.base | awk '{print $2}' | sed 's#github.com/scrapli/scrapligo#.#' | sort -u)
+    if [ -n "$pk" ]; then
+      again=0
+      for q in $pk; do
+        (cd $WT && flock /tmp/suite.lock go test -vet=off -count=1 $q/ 2>&1) >/tmp/sm_$id.base2 2>&1
+        grep -q "^ok" /tmp/sm_$id.base2 && ! grep -q "^FAIL\|^--- FAIL\|panic:" /tmp/sm_$id.base2 || again=1
+      done
+      if [ $again -eq 0 ]; then okc=$((okc + $(echo $pk | wc -w))); failc=0; note=" (failed under load, passed when re-run alone: $(echo $pk))"; fi
+    fi
   fi
   res=""
   for c in $checks; do
